@@ -281,7 +281,7 @@ def work(spec):
                                f'after {list(hist)!r} the operation {op!r} raised {out}', sig='spurious-reject')
 
     if kind == 'extra':
-        EXTRA_RULES[:] = sorted({o[1] for o in extra})
+        EXTRA_RULES[:] = sorted({o[1] for o in extra} - set(RULES))
         EXTRA_PATHS[:] = [r.replace('{p}', '7') for r in EXTRA_RULES]
     # states are deduplicated by the method tables AND the concrete router object graph (hidden dispatch state counts)
     s = Search(lambda h: build(om, h), m, lambda obj: (real_key(obj[0]), _canon(obj[0].router)))
